@@ -332,7 +332,13 @@ fn capabilities_detect(term: &mut UnixTerminal) -> Result<(), Error> {
                 break; // this is last "sync" event
             }
             Some(TerminalEvent::Size(size)) => {
-                size_escape = size;
+                // responses to the two size requests may arrive separately
+                if !size.cells.is_empty() {
+                    size_escape.cells = size.cells;
+                }
+                if !size.pixels.is_empty() {
+                    size_escape.pixels = size.pixels;
+                }
             }
             Some(TerminalEvent::KeyboardLevel(_)) => {
                 tracing::debug!("[capabilities_detected] kitty keyboard protocol");
@@ -513,7 +519,14 @@ impl Terminal for UnixTerminal {
                     if let TerminalEvent::Size(size) = event {
                         // we are using escape sequence to determine terminal resize
                         if let Some(term_size) = self.size.as_mut() {
-                            *term_size = size;
+                            // responses to the two size requests may arrive separately
+                            if !size.cells.is_empty() {
+                                term_size.cells = size.cells;
+                            }
+                            if !size.pixels.is_empty() {
+                                term_size.pixels = size.pixels;
+                            }
+                            let size = *term_size;
                             self.events_queue.push_back(TerminalEvent::Resize(size));
                         }
                     }
